@@ -11,7 +11,7 @@ package assets
 //verif:stub os.ReadFile = c39ReadFile
 //verif:stub (*os.File).ReadAt = c39ReadAt
 //verif:stub (*os.File).Close = c39Close
-//verif:bound Range header "bytes=" + up to 4 arbitrary bytes (quick) / 6 (thorough), and a fully arbitrary header of up to 3 bytes; one asset file of 6 known bytes; request path fixed to /x.txt, then (path harness) arbitrary paths (with or without a leading slash) of up to 5 bytes over {/ . a x l}, asset root /l with a sibling file /la
+//verif:bound Range header "bytes=" + up to 4 arbitrary bytes (quick) / 6 (thorough), and a fully arbitrary header of up to 3 bytes; one asset file of 6 known bytes (and a second one whose name differs by a leading dot, for two-request sequences over 7 spellings of the two); request path fixed to /x.txt, then (path harness) arbitrary paths (with or without a leading slash) of up to 5 bytes over {/ . a x l}, asset root /l with a sibling file /la
 //verif:assume model file system: the file <root>/x.txt exists, and next to the root a file whose name extends the root's name; Stat/Open/ReadFile of any other name fail; ReadAt returns the bytes available from the offset and io.EOF when short
 //verif:outside Markdown rendering, JS/CSS minification on load (C33/C34), the asset cache eviction policy, symbolic file contents/sizes beyond the one file
 
@@ -34,6 +34,9 @@ import (
 )
 
 const c39Content = "abcdef"
+
+// a second asset whose name differs from the first by a leading dot
+const c39Content2 = "uvwxyz"
 
 var c39Root = "/l"
 
@@ -84,12 +87,15 @@ var errC39NotFound = errors.New("no such file")
 
 func c39Exists(name string) bool {
 	c39Opened = append(c39Opened, name)
-	return name == c39Root+"/x.txt" || name == c39Outside
+	return name == c39Root+"/x.txt" || name == c39Root+"/.x.txt" || name == c39Outside
 }
 
 func c39ContentOf(name string) string {
 	if name == c39Outside {
 		return c39Secret
+	}
+	if name == c39Root+"/.x.txt" {
+		return c39Content2
 	}
 	return c39Content
 }
@@ -142,6 +148,7 @@ func c39Setup() func() {
 	root := filepath.Join(dir, "l")
 	os.MkdirAll(root, 0o755)
 	os.WriteFile(filepath.Join(root, "x.txt"), []byte(c39Content), 0o644)
+	os.WriteFile(filepath.Join(root, ".x.txt"), []byte(c39Content2), 0o644)
 	os.WriteFile(filepath.Join(dir, "la"), []byte(c39Secret), 0o644)
 	c39Root = root
 	settings.SetDefault(defs.EgoLibPathSetting, root)
@@ -251,9 +258,28 @@ func VerifC39_pathConfinement() {
 	// (Which names were merely probed is not observable from outside the
 	// process, so only what is served is asserted.)
 	if !w.isErr && st == http.StatusOK {
-		sym.Assert(string(w.body) == c39Content, "content served that is not the asset under the root")
+		sym.Assert(string(w.body) == c39Content || string(w.body) == c39Content2, "content served that is not an asset under the root")
 	}
 	sym.Assert(!strings.Contains(string(w.body), c39Secret), "the content of a file outside the asset root was served")
+}
+
+// VerifC39_eachRequestGetsItsOwnFile: two requests in a row (the asset cache
+// lives across them) for spellings of two files whose names differ by a
+// leading dot: each answer carries the bytes of the file its own path names.
+func VerifC39_eachRequestGetsItsOwnFile() {
+	cleanup := c39Setup()
+	defer cleanup()
+	spellings := []string{"/x.txt", "/.x.txt", "//x.txt", "/./x.txt", "x.txt", ".x.txt", "/a/../.x.txt"}
+	want := []string{c39Content, c39Content2, c39Content, c39Content, c39Content, c39Content2, c39Content2}
+	for i := 0; i < 2; i++ {
+		k := sym.Choice("spelling", len(spellings))
+		w, st := c39Request(spellings[k], nil)
+		sym.Reach("answered")
+		if !w.isErr && st == http.StatusOK {
+			sym.Assert(string(w.body) == want[k], "a request was answered with the bytes of another file (stale or colliding cache entry)")
+		}
+		sym.Assert(!strings.Contains(string(w.body), c39Secret), "the content of a file outside the asset root was served")
+	}
 }
 
 // c39ParseDocumented recognises bytes=<digits>-<digits> and bytes=<digits>-.
